@@ -278,12 +278,22 @@ var c11Rel = &Relation{Fields: []FieldDef{{Name: "a", DataType: TypeInt}, {Name:
 func c11Gen(t *rapid.T) c11Case {
 	var c c11Case
 	n := rapid.IntRange(10, 120).Draw(t, "nops")
-	ntables := 0
+	ntables, maxTables := 0, 4
+	if rapid.IntRange(0, 4).Draw(t, "manytables") == 0 {
+		// a catalog spread over several pages: the row recording a tree's root
+		// then lives in a catalog leaf, not in the catalog's root page
+		maxTables = 11
+		for k := rapid.IntRange(7, 9).Draw(t, "ntables"); k > 0; k-- {
+			c.Ops = append(c.Ops, c11Op{Op: "create", Table: ntables})
+			ntables++
+		}
+		n += len(c.Ops)
+	}
 	for len(c.Ops) < n {
 		kind := "create"
 		if ntables > 0 {
 			w := []string{"insert", "insert", "insert", "insert", "insert", "update", "delete", "delete", "flush", "reload", "reopen", "crash"}
-			if ntables < 4 {
+			if ntables < maxTables {
 				w = append(w, "create")
 			}
 			kind = rapid.SampledFrom(w).Draw(t, "op")
